@@ -129,7 +129,10 @@ class N:
         return f"N({self.id}:{self.kind})"
 
 
-def flatten(t: Tree, root_id: str = "m") -> List[N]:
+def flatten(t: Tree, root_id: str = "m", naming: str = "prefix") -> List[N]:
+    """naming='prefix' (default): keys 'a', 'ab', 'abc', ... in document order; naming='reversed': keys 'z', 'y', 'x', ...
+    so that document order is the REVERSE of the lexicographic order of keys and ids (whatever sorts states by id instead
+    of by document order shows)."""
     nodes: List[N] = []
 
     def rec(tt: Tree, parent: Optional[N], depth: int) -> N:
@@ -137,7 +140,7 @@ def flatten(t: Tree, root_id: str = "m") -> List[N]:
         # adversarial naming: every key is a string prefix of all later keys
         # ('a', 'ab', 'abc', ...), so id-prefix tests that forget the '.' separator
         # confuse siblings with descendants
-        key = root_id if parent is None else KEYS[:idx]
+        key = root_id if parent is None else (KEYS[:idx] if naming == "prefix" else KEYS[26 - idx])
         id_ = key if parent is None else f"{parent.id}.{key}"
         n = N(idx, tt[0], key, id_, parent, depth)
         nodes.append(n)
@@ -202,7 +205,7 @@ def cfg_node(cfg: Dict[str, Any], node: N) -> Dict[str, Any]:
     return sub
 
 
-def universal_config(t: Tree, *, with_root_targets: bool = True, reenter_all: bool = True, shared: bool = False) -> Tuple[Dict[str, Any], List[N], Dict[str, Dict[str, Any]]]:
+def universal_config(t: Tree, *, with_root_targets: bool = True, reenter_all: bool = True, shared: bool = False, naming: str = "prefix") -> Tuple[Dict[str, Any], List[N], Dict[str, Dict[str, Any]]]:
     """Universal machine: one event per (source, target) pair.
 
     Events: 'T<i>_<j>' source i -> target j (absolute '#id' target),
@@ -210,7 +213,7 @@ def universal_config(t: Tree, *, with_root_targets: bool = True, reenter_all: bo
     Every transition carries a marker action 'tr:<event>'.
     Returns (config, nodes, events) with events[name] = {src, tgt, kind}.
     """
-    nodes = flatten(t)
+    nodes = flatten(t, naming=naming)
     cfg = skeleton_config(nodes)
     events: Dict[str, Dict[str, Any]] = {}
     for s in nodes:
@@ -352,6 +355,30 @@ def par_skeletons(tier: str = "quick") -> List[Tree]:
             for s2 in menu[:3]:
                 for s3 in menu[:2]:
                     out.append(("C", (("P", (s1, s2, s3)), A_)))
+    return out
+
+
+def big_skeletons(tier: str = "quick") -> List[Tree]:
+    """Larger, deliberately irregular trees (9-15 non-root nodes) mixing the features that the regular families hold one
+    at a time: a parallel state inside a compound inside a parallel, three regions, 3-4 levels of nesting, history next
+    to final states, two history owners in sibling regions, a root that is itself parallel."""
+    A_, F_ = ("A", ()), ("F", ())
+    caa, caf = ("C", (A_, A_)), ("C", (A_, F_))
+    out: List[Tree] = [
+        ("C", (("P", (("C", (("P", (A_, A_)), A_)), ("C", (("Hd", ()), A_, F_)))), A_)),
+        ("C", (("P", (caa, caf, ("C", (("Hs", ()), A_, caa)))), A_)),
+        ("C", (("C", (("Hd", ()), ("P", (caa, caf)), ("C", (A_, caa)))), A_)),
+        ("P", (("C", (A_, ("C", (A_, F_)))), ("C", (("Hs", ()), A_, A_)), A_)),
+    ]
+    if tier != "quick":
+        out += [
+            ("C", (("P", (("P", (caa, A_)), ("C", (("Hd", ()), caa, A_)))), F_)),
+            ("C", (("C", (("P", (caf, caf)), F_)), ("C", (("Hs", ()), A_, A_)))),
+            ("C", (("P", (("C", (("Hd", ()), A_, caa)), ("C", (("Hd", ()), A_, A_)))), A_)),
+            ("C", (("C", (("C", (caa, A_)), A_)), ("P", (A_, A_)))),
+            ("C", (("P", (("C", (("Hs", ()), caf, A_)), ("C", (A_, ("P", (A_, A_)))))), A_)),
+            ("P", (("C", (("Hd", ()), ("P", (A_, A_)), A_)), ("C", (A_, F_)))),
+        ]
     return out
 
 
